@@ -14,6 +14,8 @@ def inRanges (rs : List (Nat × Nat)) (c : Char) : Bool :=
 def isSpace (c : Char) : Bool := inRanges Generated.spaceRanges c
 /-- `c.isdigit()` -/
 def isDigit (c : Char) : Bool := inRanges Generated.digitRanges c
+/-- matched by the regular expression `\d` -/
+def isDecimal (c : Char) : Bool := inRanges Generated.decimalRanges c
 /-- `c.isalnum()` -/
 def isAlnum (c : Char) : Bool := inRanges Generated.alnumRanges c
 
